@@ -5038,7 +5038,7 @@ func (c *Checker) checkNonNilableInstanceVariableForClass(class *types.Class, lo
 func (c *Checker) checkMatchExpressionNode(node *ast.MatchExpressionNode) {
 	node.Expression = c.checkExpression(node.Expression)
 	exprType := c.TypeOf(node.Expression)
-	node.Pattern, _ = c.checkPattern(node.Pattern, exprType)
+	node.Pattern, node.FullyCapturedType = c.checkPattern(node.Pattern, exprType)
 	if !c.flags.HasFlag(conditionFlag) && ast.PatternDeclaresVariables(node.Pattern) {
 		c.addFailure(
 			"patterns in match expressions outside conditions cannot declare variables",
